@@ -442,6 +442,11 @@ class _ILoc(object):
 
 
 def concat(frames, *a, **k):
+    for key in k:
+        if key not in ('ignore_index', 'axis', 'sort'):
+            raise Unsupported('concat(%s=...)' % key)
+    if k.get('axis', 0) != 0:
+        raise Unsupported('concat(axis=1)')
     frames = list(frames)
     if not frames:
         raise ValueError('No objects to concatenate')
@@ -458,6 +463,8 @@ def concat(frames, *a, **k):
         for r, lab in zip(f._rows, f.index):
             rows.append(tuple(r[pos[c]] if c in pos else NaN for c in cols))
             index.append(lab)
+    if k.get('ignore_index'):
+        index = list(range(len(rows)))
     return FakeFrame(rows, columns=cols, index=index)
 
 
